@@ -14,7 +14,7 @@ RULE = ("every (sequences, custom distance, max_edits, max_custom_distance, engi
         "naively; both CSV tables are checked entry by entry; non-trivial = expected set non-empty")
 ASSUMPTIONS = ["pwseqdist is absent: /verif/standins/pwseqdist supplies apply_pairwise_sparse + nb_vector_tcrdist (own implementation); what is decided is pyrepseq's composition (candidate search, positional lookup, V table, chain sum, radius), not pwseqdist",
                "custom distances are symmetric with d(x,x)=0 as the property requires"]
-REQUIRED_CLASSES = {"all": ["lev-ok-custom-too-far", "custom-ok-lev-too-far", "real-valued-distance", "infinite-max_custom_distance", "tcrdist-empty-result", "tcrdist-chain-both", "vtable-entry", "history-changes-distance-function"]}
+REQUIRED_CLASSES = {"all": ["lev-ok-custom-too-far", "custom-ok-lev-too-far", "real-valued-distance", "infinite-max_custom_distance", "tcrdist-empty-result", "tcrdist-chain-both", "vtable-entry", "history-changes-distance-function", "library-function-object-as-distance", "tcrdist-kwargs-history"]}
 MIN_OUTCOMES = 10
 
 INF = float("inf")
@@ -24,7 +24,30 @@ def _lendiff(a, b):
     return abs(len(a) - len(b))
 
 
-CUSTOM = {
+def _rf():
+    from rapidfuzz.distance.Levenshtein import distance
+    return distance
+
+
+def _pylev():
+    from Levenshtein import distance
+    return distance
+
+
+class _Lazy(dict):
+    """custom distances that are library function objects themselves (not wrappers): resolved on first use"""
+
+    def __missing__(self, k):
+        if k == "rapidfuzz-function":
+            self[k] = _rf()
+        elif k == "python-Levenshtein-function":
+            self[k] = _pylev()
+        else:
+            raise KeyError(k)
+        return self[k]
+
+
+CUSTOM = _Lazy({
     "lev": lambda a, b: ref_lev(a, b),
     "2lev": lambda a, b: 2 * ref_lev(a, b),
     "halflev": lambda a, b: ref_lev(a, b) / 2,
@@ -32,14 +55,15 @@ CUSTOM = {
     "lendiff": _lendiff,
     "lev+lendiff": lambda a, b: ref_lev(a, b) + _lendiff(a, b),
     "zero": lambda a, b: 0,
-}
+})
+LIB_FUNCS = ("rapidfuzz-function", "python-Levenshtein-function")
 MAXCD = (INF, 0, 0.5, 1, 2, 3, 10, 20)
 SELF_ENG = ("symdel", "nearest_neighbor", "kdtree", "hash_based")
 TWO_ENG = ("symdel2", "SymdelDB", "LookupDB")
 
 
 def expected_custom(seqs, k, cname, maxcd, queries=None):
-    f = CUSTOM[cname]
+    f = CUSTOM[cname] if cname not in LIB_FUNCS else ref_lev
     out = set()
     for (qi, ri, d) in neighbors_within(list(seqs), k, queries=None if queries is None else list(queries)):
         q = (seqs if queries is None else queries)[qi]
@@ -101,7 +125,7 @@ def spaces(tier):
 
     def gen_lists():
         for seqs in E.lists(E.universe("AC", 2), 3):
-            for cname in CUSTOM:
+            for cname in tuple(CUSTOM) + LIB_FUNCS:
                 yield ("list", seqs, cname)
 
     def gen_tcr():
@@ -114,7 +138,7 @@ def spaces(tier):
             R = R[::2]
         for n in range(2, nmax + 1):
             for rows in itertools.combinations_with_replacement(range(len(R)), n):
-                if n >= 3 and (sum(rows) % (4 if q else 7)) != 0:
+                if n >= 3 and (sum(rows) % ((4 if q else 7) if n == 3 else 211)) != 0:
                     continue   # thinning of the larger tables by a fixed residue class (stated in bounds)
                 yield ("tcr", tuple(R[r] for r in rows))
 
@@ -128,6 +152,15 @@ def spaces(tier):
                             for h in itertools.product(HIST_OPS, repeat=d):
                                 yield ("hist", kind, ri, qi, k, h)
 
+    def gen_tcr_hist():
+        tables = (((0, 0, 0, 4), (0, 1, 0, 4), (1, 2, 1, 5)), ((2, 3, 0, 6), (2, 3, 0, 4), (0, 0, 1, 5), (0, 1, 1, 5)))
+        depth = 2 if q else 3
+        for ti in range(len(tables)):
+            for chain in ("beta", "both"):
+                for d in range(1, depth + 1):
+                    for h in itertools.product(range(len(TCR_KW)), repeat=d):
+                        yield ("tcrhist", tables[ti], chain, h)
+
     def gen_vt():
         yield ("vtable", "vdists_alpha.csv")
         yield ("vtable", "vdists_beta.csv")
@@ -137,12 +170,15 @@ def spaces(tier):
         Space("custom-distance-all-lists", gen_lists, "Lists(U(AC,2),3) x 7 custom distances x max_edits in 1..2 x 8 max_custom_distance x 4 self engines + 3 two-collection engines (query = reversed list)"),
         Space("tcrdist-tables", gen_tcr, "all multisets of 2 rows (and a fixed residue class of the 3[,4]-row multisets) over a row alphabet of beta/alpha V alleles x CDR3s; chain x edit_on_trimmed x max_edits in 1..2 x max_tcrdist in {0,12,24,1000}; shifted index", shards=64),
         Space("index-object-histories", gen_hist, "every sequence of 1..2 (quick) / 1..3 (thorough) look-ups with distance in {default, hamming, 4 callables} x max_custom_distance in {inf, 1} on one live SymdelDB / LookupDB (2 references x 2 query lists), each answer compared with the reference", shards=32),
+        Space("tcrdist-kwargs-histories", gen_tcr_hist, "every sequence of 1..2 (quick) / 1..3 (thorough) nearest_neighbor_tcrdist calls with tcrdist_kwargs in {none, dist_weight=1, ntrim=2+ctrim=1, gap_penalty=4} on 2 tables x chain in {beta, both}; caller's dict unchanged"),
         Space("bundled-v-tables", gen_vt, "every entry of vdists_alpha.csv and vdists_beta.csv", per_case=True),
     ]
 
 
 def _classify(acc, seqs, k, cname, maxcd):
-    f = CUSTOM[cname]
+    f = CUSTOM[cname] if cname not in LIB_FUNCS else ref_lev
+    if cname in LIB_FUNCS:
+        acc.cls("library-function-object-as-distance")
     n = len(seqs)
     if maxcd == INF:
         acc.cls("infinite-max_custom_distance")
@@ -217,6 +253,8 @@ def check_case(case, acc):
         _cmp(acc, case, eng, list(seqs), k, cname, maxcd, None if queries is None else list(queries), True)
     elif kind == "hist":
         _check_history(acc, case)
+    elif kind == "tcrhist":
+        _check_tcr_history(acc, case)
     elif kind == "vtable":
         _check_vtable(acc, case)
     elif kind == "tcr":
@@ -283,7 +321,37 @@ def _vt(chain):
     return _VT[chain]
 
 
-def expected_tcr(rows, chain, max_edits, trimmed, max_tcrdist):
+TCR_KW = ({}, {"dist_weight": 1}, {"ntrim": 2, "ctrim": 1}, {"gap_penalty": 4})
+
+
+def _check_tcr_history(acc, case):
+    import numpy as np
+    import pyrepseq
+    _, rows, chain, h = case
+    for step, ki in enumerate(h):
+        acc.cls("tcrdist-kwargs-history")
+        kwd = dict(TCR_KW[ki])
+        snap = dict(kwd)
+        df = _mk_df(rows)
+        exp = expected_tcr(rows, chain, 2, True, 60, **kwd)
+        res = acc.call(pyrepseq.nearest_neighbor_tcrdist, df, chain=chain, max_edits=2, max_tcrdist=60, **({"tcrdist_kwargs": kwd} if kwd or step % 2 else {}))
+        rc = ("tcrhist", rows, chain, tuple(h[:step + 1]))
+        if raised(res):
+            acc.fail("nearest_neighbor_tcrdist/history/raised-%s" % res.type, rc, sorted(exp), res)
+            return
+        arr = np.asarray(res)
+        trip = [(int(r[0]), int(r[1]), float(r[2])) for r in arr.reshape(-1, 3)] if arr.size else []
+        bad = diagnose(trip, {(i, j, float(d)) for i, j, d in exp})
+        if bad is not None:
+            acc.fail("nearest_neighbor_tcrdist/history/%s" % bad[0], rc, sorted(exp), sorted(trip), note="kwargs sequence %r" % ([TCR_KW[i] for i in h[:step + 1]],))
+            return
+        if kwd != snap:
+            acc.fail("nearest_neighbor_tcrdist/caller-kwargs-modified", rc, snap, kwd)
+            return
+        acc.ok(("tcrh", ki, tuple(sorted(trip))), nontrivial=bool(exp))
+
+
+def expected_tcr(rows, chain, max_edits, trimmed, max_tcrdist, ntrim=3, ctrim=2, dist_weight=3, gap_penalty=12):
     import pwseqdist
     n = len(rows)
     first = "alpha" if chain == "alpha" else "beta"
@@ -298,14 +366,14 @@ def expected_tcr(rows, chain, max_edits, trimmed, max_tcrdist):
                 continue
             a, b = cdr3(rows[i], first), cdr3(rows[j], first)
             if trimmed:
-                a, b = a[3:-2], b[3:-2]
+                a, b = a[ntrim:-ctrim], b[ntrim:-ctrim]
             if ref_lev(a, b) > max_edits:
                 continue
             chains = ("beta", "alpha") if chain == "both" else (first,)
             tot = 0.0
             for ch in chains:
                 tot += _vt(ch)[(v(rows[i], ch), v(rows[j], ch))]
-                tot += pwseqdist.reference_tcrdist_cdr3(cdr3(rows[i], ch), cdr3(rows[j], ch), ntrim=3, ctrim=2, dist_weight=3, gap_penalty=12, fixed_gappos=False)
+                tot += pwseqdist.reference_tcrdist_cdr3(cdr3(rows[i], ch), cdr3(rows[j], ch), ntrim=ntrim, ctrim=ctrim, dist_weight=dist_weight, gap_penalty=gap_penalty, fixed_gappos=False)
             if tot <= max_tcrdist:
                 out.add((i, j, tot))
     return out
